@@ -1,9 +1,13 @@
 (* StopPromptAlmG.v — C19 under ALM, generic in the inner solver, and its instances for ZeroFPR, PANTR and FISTA
    (AlmZeroFpr.v, AlmPantr.v, AlmFista.v; the PANOC instance is StopPromptAlm.v).  Over R.
    Generic part (any world type W, log type Lg, inner solver function): given a predicate `seen w` ("the request is visible in world
-   w") and a predicate `one lg r` on (log, outcome) such that an inner solve STARTED in a world where the request is seen satisfies
-   `one` and hands on a world where it is seen, every inner solve of an ALM run after such a world satisfies `one`; Interrupted is
-   the last record of an ALM trace.  Instances: `one` = start-up + ONE stop check, no iteration, no direction call. *)
+   w"), a predicate `one lg r` on (log, outcome) such that an inner solve STARTED in a world where the request is seen satisfies
+   `one` and hands on a world where it is seen, and the fact that the outer loop's reading of ALM's own stop flag after an inner solve
+   (Alm.ir_stop) is true when the request is seen in the world that solve hands on:  the outer iteration at whose end the request is
+   seen is the LAST one of the run (AlmComposeProofs.run_ends_at: no further inner solve; status Interrupted (inner) / Converged >
+   MaxTime > MaxIter > Interrupted); Interrupted is the last record of an ALM trace.
+   Instances: `one` = start-up + ONE stop check, no iteration, no direction call; the request is seen at the end of an inner solve
+   one of whose polls saw it (that solve is prompt as stand-alone) or which started with it visible. *)
 From Coq Require Import Reals List ZArith Lra Lia Bool Arith.
 From Alpaqa Require Import Num NumR Vec Prox SolverStatus SolverKernels StopChain StopChainProofs AugLag Panoc ZeroFpr Pantr FistaLoop
                            Alm AlmProofs AlmCompose AlmComposeProofs AlmPanoc AlmZeroFpr AlmPantr AlmFista
@@ -18,22 +22,11 @@ Section Generic.
   Variable seen : W -> Prop.
   Variable one : Lg -> inner_res (T:=R) -> Prop.
   Hypothesis Hone : forall w i x y Σ tol e r x' lg w', seen w -> inner w i x y Σ tol e = Some (r, x', lg, w') -> one lg r /\ seen w'.
+  (* ALMSolver::stop() sets ALM's own flag together with the inner solver's: what the outer loop reads after an inner solve *)
+  Hypothesis Hflag : forall w i x y Σ tol e r x' lg w', inner w i x y Σ tol e = Some (r, x', lg, w') -> seen w' -> ir_stop r = true.
 
   Notation irecR := (iter_rec (T:=R)).
   Notation called_ := (called W Lg inner).
-
-  Inductive gcalled1 : W -> list irecR -> Prop :=
-  | g1_nil w : gcalled1 w []
-  | g1_cons w rc x x' lg w' tr :
-      inner w (it_i rc) x (it_y rc) (it_Sigma rc) (it_tol rc) (it_err_in rc) = Some (it_res rc, x', lg, w') ->
-      one lg (it_res rc) -> gcalled1 w' tr -> gcalled1 w (rc :: tr).
-
-  Lemma gcalled_after_seen x w tr xf wf : called_ x w tr xf wf -> seen w -> gcalled1 w tr /\ seen wf.
-  Proof.
-    induction 1 as [x w|x w rc x' lg w' tr xf wf Ein _ IH]; intros Hw; [split; [constructor|exact Hw]|].
-    destruct (Hone _ _ _ _ _ _ _ _ _ _ _ Hw Ein) as [A B]. destruct (IH B) as [C D].
-    split; [econstructor; eassumption|exact D].
-  Qed.
 
   Lemma gcalled_split : forall pre x0 w0 rc post xf wf, called_ x0 w0 (pre ++ rc :: post) xf wf ->
     exists x w x' lg w', called_ x0 w0 pre x w /\
@@ -64,31 +57,31 @@ Section Generic.
     rewrite Hfin in Hex.
     destruct (run_interrupted_immediate P pb _ _ nanv Σ0 y0 script Hmi Hm Hex) as (pre' & rl & E1 & Hf & Hst).
     rewrite <- Htr in E1.
+    assert (Hf' : Forall (fun a => ir_status (it_res a) <> Interrupted) pre') by (eapply Forall_impl; [|exact Hf]; intros a [Ha _]; exact Ha).
     assert (Hpost : post = []) by (eapply interrupted_is_last; eassumption).
-    split; [exact Hpost|]. subst post. rewrite Hfin. apply Hst.
+    split; [exact Hpost|]. subst post. rewrite Hfin. apply Hst. left.
     rewrite Etr in E1. apply app_inj_tail in E1. destruct E1 as [_ <-]. exact Hi.
   Qed.
 
-  (* the composed statement: rc = any outer iteration; IF the world its inner solve hands on is one where the request is seen ... *)
-  Theorem galm_stop_prompt fuel f0 g0 nanv Σ0 y0 x0 w0 co : c_run W Lg inner P pb fuel f0 g0 nanv Σ0 y0 x0 w0 = Some co ->
+  (* the composed statement: rc = any outer iteration; w / w' = the worlds in which its inner solve started / which it handed on *)
+  Theorem galm_stop_ends_run fuel f0 g0 nanv Σ0 y0 x0 w0 co : c_run W Lg inner P pb fuel f0 g0 nanv Σ0 y0 x0 w0 = Some co ->
     forall pre rc post, co_trace co = pre ++ rc :: post ->
     exists (x : list R) (w : W) (x' : list R) (lg : Lg) (w' : W),
       called_ x0 w0 pre x w /\
       inner w (it_i rc) x (it_y rc) (it_Sigma rc) (it_tol rc) (it_err_in rc) = Some (it_res rc, x', lg, w') /\
-      (ir_status (it_res rc) = Interrupted -> post = [] /\ f_status (co_final co) = Interrupted) /\
-      (seen w' -> gcalled1 w' post) /\
-      (forall post1 rc' post2, post = post1 ++ rc' :: post2 -> ir_status (it_res rc') = Interrupted ->
-         post2 = [] /\ f_status (co_final co) = Interrupted).
+      (* the request is seen when the inner solve returns: the run ends at this outer iteration, no further inner solve *)
+      (seen w' -> run_ends_at P pb pre rc post (co_final co)) /\
+      (* it is, when it was seen before the solve started — that solve is then `one` *)
+      (seen w -> one lg (it_res rc) /\ seen w') /\
+      (ir_status (it_res rc) = Interrupted -> post = [] /\ f_status (co_final co) = Interrupted).
   Proof.
     intros Hrun pre rc post Etr.
     destruct (c_run_spec _ _ _ _ _ _ _ _ _ _ _ _ _ _ Hrun) as (script & _ & _ & _ & Hcalled & _).
     rewrite Etr in Hcalled. destruct (gcalled_split _ _ _ _ _ _ _ Hcalled) as (x & w & x' & lg & w' & A & B & C).
     exists x, w, x', lg, w'. split; [exact A|]. split; [exact B|].
-    split; [intros Hi; exact (gtrace_interrupted_last _ _ _ _ _ _ _ _ _ Hrun pre rc post Etr Hi)|].
-    split; [intros Hs; destruct (gcalled_after_seen _ _ _ _ _ C Hs) as [C1 _]; exact C1|].
-    intros post1 rc' post2 Ep Hi.
-    apply (gtrace_interrupted_last _ _ _ _ _ _ _ _ _ Hrun (pre ++ rc :: post1) rc' post2); [|exact Hi].
-    rewrite Etr, Ep, <- app_assoc. reflexivity.
+    split; [intros Hs; apply (c_run_stop_ends_run _ _ _ _ _ _ _ _ _ _ _ _ _ _ Hrun pre rc post Etr); exact (Hflag _ _ _ _ _ _ _ _ _ _ _ B Hs)|].
+    split; [intros Hw; exact (Hone _ _ _ _ _ _ _ _ _ _ _ Hw B)|].
+    intros Hi; exact (gtrace_interrupted_last _ _ _ _ _ _ _ _ _ Hrun pre rc post Etr Hi).
   Qed.
 End Generic.
 
@@ -148,25 +141,31 @@ Section AlmZ.
     apply (Hsticky (cadd w (pp_cnt pp))); [|exact Hs]. apply cadd_le_r. exact (adv_le _ _ _ _ _ _ _ A).
   Qed.
 
+  Lemma zinner_stop_flag w i x y Σ tol e r x' lg w' : zinner_ w i x y Σ tol e = Some (r, x', lg, w') -> ir_stop r = stop_req w'.
+  Proof.
+    unfold zinner. cbv zeta.
+    match goal with |- context [match ?X with Done _ => _ | NotFiniteL _ => _ | OutOfFuel => _ end] => destruct X as [o|L|] end;
+      [| |discriminate]; intros E; inversion E; subst; clear E; reflexivity.
+  Qed.
+
   Notation almz := (alm_zerofpr Pb prov wm_supplied Clb Cub l1 split dir has_initial stop_req time_up outer_oot PP AP ls_fuel inner_fuel).
-  Theorem alm_zerofpr_stop_prompt outer_fuel nanv Σ0 y0 x0 co : almz outer_fuel nanv Σ0 y0 x0 = Some co ->
+  Theorem alm_zerofpr_stop_ends_run outer_fuel nanv Σ0 y0 x0 co : almz outer_fuel nanv Σ0 y0 x0 = Some co ->
     forall pre rc post, co_trace co = pre ++ rc :: post ->
     exists (x : list R) (w : counters) (x' : list R) (lg : result (T:=R)) (w' : counters),
       called counters (result (T:=R)) zinner_ x0 cnt0 pre x w /\
       zinner_ w (it_i rc) x (it_y rc) (it_Sigma rc) (it_tol rc) (it_err_in rc) = Some (it_res rc, x', lg, w') /\
-      (ir_status (it_res rc) = Interrupted -> post = [] /\ f_status (co_final co) = Interrupted) /\
-      (forall post1 rc' post2, post = post1 ++ rc' :: post2 -> ir_status (it_res rc') = Interrupted ->
-         post2 = [] /\ f_status (co_final co) = Interrupted) /\
-      forall pp o, lg = Done o -> zinner_polled w x (it_y rc) (it_Sigma rc) (it_tol rc) (it_err_in rc) pp ->
-        stop_req (cadd w (pp_cnt pp)) = true ->
-        zprompt_after (with_opts PP (it_tol rc)) pp o /\
-        gcalled1 counters (result (T:=R)) zinner_ zone_check w' post.
+      (stop_req w' = true -> run_ends_at AP (pb_of Pb split) pre rc post (co_final co)) /\
+      (forall pp o, lg = Done o -> zinner_polled w x (it_y rc) (it_Sigma rc) (it_tol rc) (it_err_in rc) pp ->
+         stop_req (cadd w (pp_cnt pp)) = true -> zprompt_after (with_opts PP (it_tol rc)) pp o /\ stop_req w' = true) /\
+      (stop_req w = true -> zone_check lg (it_res rc) /\ stop_req w' = true) /\
+      (ir_status (it_res rc) = Interrupted -> post = [] /\ f_status (co_final co) = Interrupted).
   Proof.
     intros Hrun pre rc post Etr. unfold alm_zerofpr in Hrun.
-    destruct (galm_stop_prompt counters (result (T:=R)) zinner_ AP (pb_of Pb split) (fun w => stop_req w = true) zone_check
-                zinner_after_request _ _ _ _ _ _ _ _ _ Hrun pre rc post Etr) as (x & w & x' & lg & w' & A & B & C & D & E).
-    exists x, w, x', lg, w'. repeat (split; [assumption|]). intros pp o -> Hp Hs.
-    destruct (zinner_request_during _ _ _ _ _ _ _ _ _ _ _ B pp Hp Hs) as [F G]. split; [exact F|exact (D G)].
+    destruct (galm_stop_ends_run counters (result (T:=R)) zinner_ AP (pb_of Pb split) (fun w => stop_req w = true) zone_check
+                zinner_after_request (fun w i x y Σ tol e r x' lg w' E Hs => eq_trans (zinner_stop_flag w i x y Σ tol e r x' lg w' E) Hs)
+                _ _ _ _ _ _ _ _ _ Hrun pre rc post Etr) as (x & w & x' & lg & w' & A & B & C & D & E).
+    exists x, w, x', lg, w'. split; [exact A|]. split; [exact B|]. split; [exact C|]. split; [|split; [exact D|exact E]].
+    intros pp o -> Hp Hs. exact (zinner_request_during _ _ _ _ _ _ _ _ _ _ _ B pp Hp Hs).
   Qed.
 End AlmZ.
 
@@ -226,25 +225,31 @@ Section AlmT.
     apply (Hsticky (cadd w (pp_cnt pp))); [|exact Hs]. apply cadd_le_r. rewrite A. cnt_solve.
   Qed.
 
+  Lemma tinner_stop_flag w i x y Σ tol e r x' lg w' : tinner_ w i x y Σ tol e = Some (r, x', lg, w') -> ir_stop r = stop_req w'.
+  Proof.
+    unfold tinner. cbv zeta.
+    match goal with |- context [match ?X with TDone _ => _ | TNotFiniteL _ => _ | TOutOfFuel => _ end] => destruct X as [o|L|] end;
+      [| |discriminate]; intros E; inversion E; subst; clear E; reflexivity.
+  Qed.
+
   Notation almt := (alm_pantr Pb prov wm_supplied Clb Cub l1 split tr_dir has_initial stop_req time_up outer_oot TP AP bt_fuel inner_fuel).
-  Theorem alm_pantr_stop_prompt outer_fuel nanv Σ0 y0 x0 co : almt outer_fuel nanv Σ0 y0 x0 = Some co ->
+  Theorem alm_pantr_stop_ends_run outer_fuel nanv Σ0 y0 x0 co : almt outer_fuel nanv Σ0 y0 x0 = Some co ->
     forall pre rc post, co_trace co = pre ++ rc :: post ->
     exists (x : list R) (w : counters) (x' : list R) (lg : tresult (T:=R)) (w' : counters),
       called counters (tresult (T:=R)) tinner_ x0 cnt0 pre x w /\
       tinner_ w (it_i rc) x (it_y rc) (it_Sigma rc) (it_tol rc) (it_err_in rc) = Some (it_res rc, x', lg, w') /\
-      (ir_status (it_res rc) = Interrupted -> post = [] /\ f_status (co_final co) = Interrupted) /\
-      (forall post1 rc' post2, post = post1 ++ rc' :: post2 -> ir_status (it_res rc') = Interrupted ->
-         post2 = [] /\ f_status (co_final co) = Interrupted) /\
-      forall pp o, lg = TDone o -> tinner_polled w x (it_y rc) (it_Sigma rc) (it_tol rc) (it_err_in rc) pp ->
-        stop_req (cadd w (pp_cnt pp)) = true ->
-        tprompt_after (tr_with_opts TP (it_tol rc)) pp o /\
-        gcalled1 counters (tresult (T:=R)) tinner_ tone_check w' post.
+      (stop_req w' = true -> run_ends_at AP (pb_of Pb split) pre rc post (co_final co)) /\
+      (forall pp o, lg = TDone o -> tinner_polled w x (it_y rc) (it_Sigma rc) (it_tol rc) (it_err_in rc) pp ->
+         stop_req (cadd w (pp_cnt pp)) = true -> tprompt_after (tr_with_opts TP (it_tol rc)) pp o /\ stop_req w' = true) /\
+      (stop_req w = true -> tone_check lg (it_res rc) /\ stop_req w' = true) /\
+      (ir_status (it_res rc) = Interrupted -> post = [] /\ f_status (co_final co) = Interrupted).
   Proof.
     intros Hrun pre rc post Etr. unfold alm_pantr in Hrun.
-    destruct (galm_stop_prompt counters (tresult (T:=R)) tinner_ AP (pb_of Pb split) (fun w => stop_req w = true) tone_check
-                tinner_after_request _ _ _ _ _ _ _ _ _ Hrun pre rc post Etr) as (x & w & x' & lg & w' & A & B & C & D & E).
-    exists x, w, x', lg, w'. repeat (split; [assumption|]). intros pp o -> Hp Hs.
-    destruct (tinner_request_during _ _ _ _ _ _ _ _ _ _ _ B pp Hp Hs) as [F G]. split; [exact F|exact (D G)].
+    destruct (galm_stop_ends_run counters (tresult (T:=R)) tinner_ AP (pb_of Pb split) (fun w => stop_req w = true) tone_check
+                tinner_after_request (fun w i x y Σ tol e r x' lg w' E Hs => eq_trans (tinner_stop_flag w i x y Σ tol e r x' lg w' E) Hs)
+                _ _ _ _ _ _ _ _ _ Hrun pre rc post Etr) as (x & w & x' & lg & w' & A & B & C & D & E).
+    exists x, w, x', lg, w'. split; [exact A|]. split; [exact B|]. split; [exact C|]. split; [|split; [exact D|exact E]].
+    intros pp o -> Hp Hs. exact (tinner_request_during _ _ _ _ _ _ _ _ _ _ _ B pp Hp Hs).
   Qed.
 End AlmT.
 
@@ -307,24 +312,30 @@ Section AlmF.
     apply (Hsticky (fcadd w (fpp_cnt pp))); [|exact Hs]. apply fcadd_le_r. exact A.
   Qed.
 
+  Lemma finner_stop_flag w i x y Σ tol e r x' lg w' : finner_ w i x y Σ tol e = Some (r, x', lg, w') -> ir_stop r = stop_req w'.
+  Proof.
+    unfold finner. cbv zeta.
+    match goal with |- context [match ?X with FDone _ => _ | FNotFiniteL _ => _ | FOutOfFuel => _ end] => destruct X as [o|L|] end;
+      [| |discriminate]; intros E; inversion E; subst; clear E; reflexivity.
+  Qed.
+
   Notation almf := (alm_fista Pb prov Clb Cub l1 split stop_req time_up outer_oot FP AP bt_fuel inner_fuel).
-  Theorem alm_fista_stop_prompt outer_fuel nanv Σ0 y0 x0 co : almf outer_fuel nanv Σ0 y0 x0 = Some co ->
+  Theorem alm_fista_stop_ends_run outer_fuel nanv Σ0 y0 x0 co : almf outer_fuel nanv Σ0 y0 x0 = Some co ->
     forall pre rc post, co_trace co = pre ++ rc :: post ->
     exists (x : list R) (w : fcounters) (x' : list R) (lg : fresult (T:=R)) (w' : fcounters),
       called fcounters (fresult (T:=R)) finner_ x0 fcnt0 pre x w /\
       finner_ w (it_i rc) x (it_y rc) (it_Sigma rc) (it_tol rc) (it_err_in rc) = Some (it_res rc, x', lg, w') /\
-      (ir_status (it_res rc) = Interrupted -> post = [] /\ f_status (co_final co) = Interrupted) /\
-      (forall post1 rc' post2, post = post1 ++ rc' :: post2 -> ir_status (it_res rc') = Interrupted ->
-         post2 = [] /\ f_status (co_final co) = Interrupted) /\
-      forall pp o, lg = FDone o -> finner_polled w x (it_y rc) (it_Sigma rc) (it_tol rc) (it_err_in rc) pp ->
-        stop_req (fcadd w (fpp_cnt pp)) = true ->
-        fprompt_after (fwith_opts FP (it_tol rc)) pp o /\
-        gcalled1 fcounters (fresult (T:=R)) finner_ fone_check w' post.
+      (stop_req w' = true -> run_ends_at AP (pb_of Pb split) pre rc post (co_final co)) /\
+      (forall pp o, lg = FDone o -> finner_polled w x (it_y rc) (it_Sigma rc) (it_tol rc) (it_err_in rc) pp ->
+         stop_req (fcadd w (fpp_cnt pp)) = true -> fprompt_after (fwith_opts FP (it_tol rc)) pp o /\ stop_req w' = true) /\
+      (stop_req w = true -> fone_check lg (it_res rc) /\ stop_req w' = true) /\
+      (ir_status (it_res rc) = Interrupted -> post = [] /\ f_status (co_final co) = Interrupted).
   Proof.
     intros Hrun pre rc post Etr. unfold alm_fista in Hrun.
-    destruct (galm_stop_prompt fcounters (fresult (T:=R)) finner_ AP (pb_of Pb split) (fun w => stop_req w = true) fone_check
-                finner_after_request _ _ _ _ _ _ _ _ _ Hrun pre rc post Etr) as (x & w & x' & lg & w' & A & B & C & D & E).
-    exists x, w, x', lg, w'. repeat (split; [assumption|]). intros pp o -> Hp Hs.
-    destruct (finner_request_during _ _ _ _ _ _ _ _ _ _ _ B pp Hp Hs) as [F G]. split; [exact F|exact (D G)].
+    destruct (galm_stop_ends_run fcounters (fresult (T:=R)) finner_ AP (pb_of Pb split) (fun w => stop_req w = true) fone_check
+                finner_after_request (fun w i x y Σ tol e r x' lg w' E Hs => eq_trans (finner_stop_flag w i x y Σ tol e r x' lg w' E) Hs)
+                _ _ _ _ _ _ _ _ _ Hrun pre rc post Etr) as (x & w & x' & lg & w' & A & B & C & D & E).
+    exists x, w, x', lg, w'. split; [exact A|]. split; [exact B|]. split; [exact C|]. split; [|split; [exact D|exact E]].
+    intros pp o -> Hp Hs. exact (finner_request_during _ _ _ _ _ _ _ _ _ _ _ B pp Hp Hs).
   Qed.
 End AlmF.
